@@ -94,6 +94,8 @@ def run_bin(name, args, stdin=None, timeout=3600, env=None, stdout_path=None):
 
 # ---------------------------------------------------------------- work dirs
 def workdir(name):
+    if repo_override():
+        name = name + "-mut" + str(os.getpid())      # concurrent mutation runs must not share scratch files
     d = os.path.join(WORK, name)
     shutil.rmtree(d, ignore_errors=True)
     os.makedirs(d, exist_ok=True)
